@@ -32,7 +32,7 @@ vars == <<g, done>>
 \* ------------------------------------------------------------------------------------------------------
 \* 1. scenario space
 \* ------------------------------------------------------------------------------------------------------
-NGenes == 250
+NGenes == 280
 F10 == [1..10 -> 0..59]
 RECURSIVE RandGenes(_)
 RandGenes(k) == IF k = 0 THEN <<>> ELSE (CHOOSE x \in RandomSubset(1, F10) : TRUE) \o RandGenes(k - 1)
@@ -120,7 +120,7 @@ GenPts(o, i, n) == LET raw == [k \in 1..n |-> <<At(o, i + 2 * k - 1) % 7, At(o, 
 
 Cmd(c, a) == [c |-> c, a |-> a]
 \* one path segment from four genes at o+i; r = a small radius for arcs
-PSeg(o, i) == LET k == Pk(o, i, <<"L", "l", "H", "h", "V", "v", "L", "l", "Q", "q", "C", "c", "A", "a", "a", "T", "S", "t", "s", "l">>)
+PSeg(o, i) == LET k == Pk(o, i, <<"L", "l", "H", "h", "V", "v", "L", "l", "Q", "q", "C", "c", "A", "a", "a", "T", "S", "t", "s", "l", "tt", "TT", "ss", "tt">>)
                   ax == At(o, i + 1) % 7  ay == At(o, i + 2) % 7  rx == (At(o, i + 1) % 5) - 2  ry == (At(o, i + 2) % 5) - 2
                   bx == At(o, i + 3) % 7  by == (At(o, i + 3) \div 7) % 7
                   r == (At(o, i + 3) % 3) + 1  sx == IF At(o, i + 1) % 2 = 0 THEN 1 ELSE -1  sy == IF At(o, i + 2) % 2 = 0 THEN 1 ELSE -1
@@ -136,6 +136,10 @@ PSeg(o, i) == LET k == Pk(o, i, <<"L", "l", "H", "h", "V", "v", "L", "l", "Q", "
       [] k = "T" -> <<Cmd("q", <<(bx % 5) - 2, (by % 5) - 2, nz(rx), ry>>), Cmd("T", <<ax, ay>>)>>
       [] k = "t" -> <<Cmd("q", <<(bx % 5) - 2, (by % 5) - 2, nz(rx), ry>>), Cmd("t", <<nz(ry), rx>>)>>
       [] k = "S" -> <<Cmd("c", <<(bx % 5) - 2, (by % 5) - 2, (by % 3) - 1, (bx % 3), nz(rx), ry>>), Cmd("S", <<bx, ax, ay, by>>)>>
+      \* chains of shorthand commands: every T / S reflects the control point of the command before it, also of another T / S
+      [] k = "tt" -> <<Cmd("q", <<(bx % 3) - 1, nz((by % 5) - 2), nz(rx), ry>>), Cmd("t", <<nz(rx), ry>>), Cmd("t", <<nz(rx), 0 - ry>>)>> \o If1(bx > 3, Cmd("t", <<nz(ry), rx>>))
+      [] k = "TT" -> <<Cmd("Q", <<bx, by, ax, ay>>), Cmd("T", <<by, ax>>), Cmd("T", <<ay, bx>>)>>
+      [] k = "ss" -> <<Cmd("c", <<(bx % 5) - 2, (by % 5) - 2, (by % 3) - 1, (bx % 3), nz(rx), ry>>), Cmd("s", <<(by % 5) - 2, (bx % 5) - 2, nz(ry), rx>>), Cmd("s", <<(bx % 5) - 2, (by % 3) - 1, nz(rx), ry>>)>>
       [] k = "s" -> <<Cmd("c", <<(bx % 5) - 2, (by % 5) - 2, (by % 3) - 1, (bx % 3), nz(rx), ry>>), Cmd("s", <<(by % 5) - 2, (bx % 5) - 2, nz(ry), rx>>)>>
 GenPath(o, i) == LET n == Pk(o, i, <<1, 2, 2, 3, 3>>)
                      segs == PSeg(o, i + 3) \o (IF n >= 2 THEN PSeg(o, i + 7) ELSE <<>>) \o (IF n >= 3 THEN PSeg(o, i + 11) ELSE <<>>)
@@ -165,7 +169,7 @@ Group(o, slot, depth) == Elem("g", depth, <<>>, <<>>, <<>>, StyleAttrs(o, slot, 
 \* ---- gene layout: document 0.., rules 20.., groups 35.. (30 each), shapes 95.. (50 each) ----------------------
 DOCo == 0
 RULo == 20
-GRPo(k) == 35 + 30 * (k - 1)
+GRPo(k) == IF k <= 2 THEN 35 + 30 * (k - 1) ELSE 245
 SHPo(k) == 95 + 50 * (k - 1)
 \* structures: preorder lists of <<"g"|"s", depth>>
 Structs == << << <<"s",1>>, <<"s",1>>, <<"s",1>> >>,
@@ -177,7 +181,10 @@ Structs == << << <<"s",1>>, <<"s",1>>, <<"s",1>> >>,
               << <<"s",1>> >>,
               << <<"g",1>>, <<"s",2>> >>,
               << <<"g",1>>, <<"g",2>>, <<"s",3>> >>,
-              << <<"s",1>>, <<"s",1>> >> >>
+              << <<"s",1>>, <<"s",1>> >>,
+              << <<"g",1>>, <<"g",2>>, <<"g",3>>, <<"s",4>> >>,
+              << <<"g",1>>, <<"g",2>>, <<"g",3>>, <<"s",4>>, <<"s",2>> >>,
+              << <<"s",1>>, <<"g",1>>, <<"g",2>>, <<"g",3>>, <<"s",4>>, <<"s",3>> >> >>
 RECURSIVE CountKind(_, _, _)
 CountKind(st, i, k) == IF i = 0 THEN 0 ELSE (IF st[i][1] = k THEN 1 ELSE 0) + CountKind(st, i - 1, k)
 Units == <<"mm", "mm", "px", "", "", "cm", "in", "pt", "pc", "absent">>
@@ -192,7 +199,8 @@ Elems == LET st == Pk(DOCo, 7, Structs) IN
 \* CSS rules: each rule aims at one element of the document (its type, first class or id), so that most rules match something
 \* A rule has a selector list of one or two members: the first is (typ, cls, id), the optional second is alt[1].
 Sel(typ, cls, id) == [typ |-> typ, cls |-> cls, id |-> id]
-Rule(typ, cls, id, d) == [typ |-> typ, cls |-> cls, id |-> id, alt |-> <<>>, d |-> d]
+Rule(typ, cls, id, d) == [typ |-> typ, cls |-> cls, id |-> id, pre |-> <<>>, alt |-> <<>>, d |-> d]
+Comp(typ, cls, id, comb) == [typ |-> typ, cls |-> cls, id |-> id, comb |-> comb]
 \* rule k > 1 follows rule k-1 (same target element, same first property) with probability 1/2: competing rules for one property
 RuleTarget(k, es) == LET o == RULo + 5 * (k - 1) IN
                      IF k > 1 /\ (At(o, 1) \div 2) % 2 = 0 THEN RULo + 5 * (k - 2) ELSE o
@@ -216,7 +224,20 @@ GenRule(k, es) == LET o == RULo + 5 * (k - 1)
                                [] sk = "i" -> Pk(o, 5, <<Sel(t.kind, "", ""), Sel("", cls, "")>>)
                                [] sk = "tc" -> Pk(o, 5, <<Sel("", cls1, ""), Sel(t.kind, "", "")>>)
                                [] sk = "star" -> Sel("", cls, "")
-                  IN IF At(o, 1) % 2 = 0 THEN [base EXCEPT !.alt = <<alt>>] ELSE base
+                      \* compounds left of the subject (3 rules in 8): descendant and child combinators, also two of them, so that matching
+                      \* has to consider every ancestor ("svg > g rect" under g > g: the nearest g is not the one whose parent is svg)
+                      gs == {x \in 1..Len(es) : es[x].kind = "g"}
+                      top == IF gs = {} THEN Comp("svg", "", "", ">")
+                             ELSE LET g1 == es[SetMin(gs)] IN
+                                  IF g1.id # "" THEN Comp("", "", g1.id, ">") ELSE IF Len(g1.cls) > 0 THEN Comp("", g1.cls[1], "", ">") ELSE Comp("svg", "", "", ">")
+                      pre == CASE (At(o, 3) \div 8) = 0 -> <<Comp("g", "", "", " ")>>
+                               [] (At(o, 3) \div 8) = 1 -> <<Comp("g", "", "", ">")>>
+                               [] (At(o, 3) \div 8) = 2 -> <<Comp("svg", "", "", ">"), Comp("g", "", "", " ")>>
+                               [] (At(o, 3) \div 8) = 3 -> <<top, Comp("g", "", "", " ")>>
+                               [] (At(o, 3) \div 8) = 4 -> <<Comp("g", "", "", " "), Comp("g", "", "", ">")>>
+                               [] OTHER -> <<>>
+                      withpre == IF sk = "star" THEN base ELSE [base EXCEPT !.pre = pre]
+                  IN IF At(o, 1) % 2 = 0 THEN [withpre EXCEPT !.alt = <<alt>>] ELSE withpre
 GenRules(es) == LET n == Pk(RULo, 1, <<0, 1, 2, 2, 3, 3>>) IN [k \in 1..n |-> GenRule(k, es)]
 
 Doc == LET o == DOCo
@@ -249,20 +270,33 @@ SpecSel(r) == (IF r.id # "" THEN 100 ELSE 0) + (IF r.cls # "" THEN 10 ELSE 0) + 
 \* a rule applies if a member of its selector list matches; its specificity for the element is that of the most specific
 \* matching member (CSS 2.1 6.4.3: a selector list is shorthand for one rule per member)
 Members(r) == <<Sel(r.typ, r.cls, r.id)>> \o r.alt
-Matches(r, e) == \E m \in 1..Len(Members(r)) : MatchesSel(Members(r)[m], e)
-SpecFor(r, e) == SetMax({SpecSel(Members(r)[m]) : m \in {x \in 1..Len(Members(r)) : MatchesSel(Members(r)[x], e)}})
-HasId(r) == \E m \in 1..Len(Members(r)) : Members(r)[m].id # ""
-NoId(r) == [r EXCEPT !.id = "", !.alt = [m \in 1..Len(r.alt) |-> [r.alt[m] EXCEPT !.id = ""]]]
+RECURSIVE Chain(_, _)
+Chain(es, i) == IF i = 0 THEN {} ELSE {i} \cup Chain(es, ParentOf(es, i))
+\* The first member may be a complex selector: r.pre[1] comb r.pre[2] comb ... subject, comb = ">" (child) or " " (descendant).
+\* CSS 2.1 5.5 / 5.6, declaratively: the compounds left of the subject can be assigned to ancestors such that every child
+\* combinator relates an element to its parent and every descendant combinator to some ancestor.
+RECURSIVE PreOK(_, _, _, _)
+PreOK(pre, k, es, i) == IF k = 0 THEN TRUE
+                        ELSE IF pre[k].comb = ">" THEN ParentOf(es, i) # 0 /\ MatchesSel(pre[k], es[ParentOf(es, i)]) /\ PreOK(pre, k - 1, es, ParentOf(es, i))
+                        ELSE \E a \in Chain(es, i) \ {i} : MatchesSel(pre[k], es[a]) /\ PreOK(pre, k - 1, es, a)
+MemberMatches(r, m, es, i) == MatchesSel(Members(r)[m], es[i]) /\ (m = 1 => PreOK(r.pre, Len(r.pre), es, i))
+RECURSIVE PreSpec(_, _)
+PreSpec(pre, k) == IF k = 0 THEN 0 ELSE SpecSel(pre[k]) + PreSpec(pre, k - 1)
+MemberSpec(r, m) == SpecSel(Members(r)[m]) + (IF m = 1 THEN PreSpec(r.pre, Len(r.pre)) ELSE 0)
+Matches(r, es, i) == \E m \in 1..Len(Members(r)) : MemberMatches(r, m, es, i)
+SpecFor(r, es, i) == SetMax({MemberSpec(r, m) : m \in {x \in 1..Len(Members(r)) : MemberMatches(r, x, es, i)}})
+HasId(r) == (\E m \in 1..Len(Members(r)) : Members(r)[m].id # "") \/ (\E m \in 1..Len(r.pre) : r.pre[m].id # "")
+NoId(r) == [r EXCEPT !.id = "", !.alt = [m \in 1..Len(r.alt) |-> [r.alt[m] EXCEPT !.id = ""]], !.pre = [m \in 1..Len(r.pre) |-> [r.pre[m] EXCEPT !.id = ""]]]
 \* rules that match e and declare p; the winner has the highest (specificity, position)
-Cands(rules, e, p) == {k \in 1..Len(rules) : Matches(rules[k], e) /\ LastDecl(rules[k].d, p, Len(rules[k].d)) # ""}
-CssVal(rules, e, p) == LET c == Cands(rules, e, p) IN
+Cands(rules, es, i, p) == {k \in 1..Len(rules) : Matches(rules[k], es, i) /\ LastDecl(rules[k].d, p, Len(rules[k].d)) # ""}
+CssVal(rules, es, i, p) == LET c == Cands(rules, es, i, p) IN
                        IF c = {} THEN ""
-                       ELSE LET k == CHOOSE k \in c : \A j \in c : SpecFor(rules[j], e) * 100 + j <= SpecFor(rules[k], e) * 100 + k
+                       ELSE LET k == CHOOSE k \in c : \A j \in c : SpecFor(rules[j], es, i) * 100 + j <= SpecFor(rules[k], es, i) * 100 + k
                             IN LastDecl(rules[k].d, p, Len(rules[k].d))
-Declared(rules, e, p) == IF StyleVal(e, p) # "" THEN StyleVal(e, p)
-                         ELSE IF CssVal(rules, e, p) # "" THEN CssVal(rules, e, p) ELSE AttrVal(e, p)
+Declared(rules, es, i, p) == IF StyleVal(es[i], p) # "" THEN StyleVal(es[i], p)
+                             ELSE IF CssVal(rules, es, i, p) # "" THEN CssVal(rules, es, i, p) ELSE AttrVal(es[i], p)
 RECURSIVE Computed(_, _, _, _)
-Computed(rules, es, i, p) == LET d == Declared(rules, es[i], p) IN
+Computed(rules, es, i, p) == LET d == Declared(rules, es, i, p) IN
                              IF d # "" THEN d ELSE IF ParentOf(es, i) = 0 THEN Initial(p) ELSE Computed(rules, es, ParentOf(es, i), p)
 
 \* ---- 2b. transforms (SVG 7.6: a list "A B C" is the product A.B.C; the CTM of an element is parent CTM . own list) ----
@@ -502,21 +536,19 @@ StrokeEvent(el, n, col, st, map, haz, cd) ==
     Event(el, "stroke", col, map, gr, [k \in 1..(gr.nx * gr.ny) |-> IF TooBig(n) THEN CFREE ELSE StrokeClass(n, st, GridPt(gr, k))], haz, [hw |-> st.hw, join |-> st.join, lim |-> st.lim, cap |-> st.cap], cd)
 
 \* ---- scenario features: where the cascade of an element is sensitive to the order in which sources are applied ----------------
-RECURSIVE Chain(_, _)
-Chain(es, i) == IF i = 0 THEN {} ELSE {i} \cup Chain(es, ParentOf(es, i))
 HazAt(rules, es, i, p) ==
-    LET e == es[i] c == Cands(rules, e, p) IN
+    LET e == es[i] c == Cands(rules, es, i, p) IN
     (IF c # {} /\ AttrVal(e, p) # "" THEN {"css-vs-attr:" \o p} ELSE {})
     \cup (IF \E x, y \in 1..Len(e.attrs) : x < y /\ e.attrs[x].n = "style" /\ LastDecl(e.attrs[x].d, p, Len(e.attrs[x].d)) # "" /\ e.attrs[y].n = p
           THEN {"style-before-attr:" \o p} ELSE {})
-    \cup (IF \E x, y \in c : x < y /\ SpecFor(rules[x], e) > SpecFor(rules[y], e) THEN {"specificity:" \o p} ELSE {})
-    \cup (IF \E k \in 1..Len(rules) : /\ LastDecl(rules[k].d, p, Len(rules[k].d)) # "" /\ ~Matches(rules[k], e)
-                                      /\ \E a \in Chain(es, i) \ {i} : Matches(rules[k], es[a])
+    \cup (IF \E x, y \in c : x < y /\ SpecFor(rules[x], es, i) > SpecFor(rules[y], es, i) THEN {"specificity:" \o p} ELSE {})
+    \cup (IF \E k \in 1..Len(rules) : /\ LastDecl(rules[k].d, p, Len(rules[k].d)) # "" /\ ~Matches(rules[k], es, i)
+                                      /\ \E a \in Chain(es, i) \ {i} : Matches(rules[k], es, a)
           THEN {"ancestor-rule:" \o p} ELSE {})
-    \cup (IF \E k \in 1..Len(rules) : /\ HasId(rules[k]) /\ LastDecl(rules[k].d, p, Len(rules[k].d)) # "" /\ ~Matches(rules[k], e)
-                                      /\ \E a \in Chain(es, i) : Matches(NoId(rules[k]), es[a])
+    \cup (IF \E k \in 1..Len(rules) : /\ HasId(rules[k]) /\ LastDecl(rules[k].d, p, Len(rules[k].d)) # "" /\ ~Matches(rules[k], es, i)
+                                      /\ \E a \in Chain(es, i) : Matches(NoId(rules[k]), es, a)
           THEN {"id-selector:" \o p} ELSE {})
-    \cup (IF p = "stroke-miterlimit" /\ Declared(rules, e, p) # "" THEN {"miterlimit-declared"} ELSE {})
+    \cup (IF p = "stroke-miterlimit" /\ Declared(rules, es, i, p) # "" THEN {"miterlimit-declared"} ELSE {})
 Haz(rules, es, i, ps) == UNION {HazAt(rules, es, j, p) : j \in Chain(es, i), p \in ps}
 \* every value some source declares for p on the element, an ancestor or in any rule, and the initial value
 CandVals(rules, es, i, p) == ({Initial(p)} \cup {AttrVal(es[j], p) : j \in Chain(es, i)} \cup {StyleVal(es[j], p) : j \in Chain(es, i)}
@@ -639,15 +671,15 @@ Full == Mode = "mc" /\ Len(g) = NGenes
 RevAttrs(es) == [i \in 1..Len(es) |-> [es[i] EXCEPT !.attrs = Rev(@)]]
 CascadeLaws == Full => LET d == Doc es == d.es rs == d.rules IN
     \A i \in 1..Len(es), k \in 1..Len(Props) :
-        LET p == Props[k] e == es[i] v == Computed(rs, es, i, p) c == Cands(rs, e, p) IN
+        LET p == Props[k] e == es[i] v == Computed(rs, es, i, p) c == Cands(rs, es, i, p) IN
         /\ InSeq(v, Vals(p)) \/ v = Initial(p)                                               \* total: always a value of the property
         /\ v = Computed(rs, RevAttrs(es), i, p)                                              \* the order of attributes is irrelevant
         /\ (StyleVal(e, p) # "" => v = StyleVal(e, p))                                       \* the style attribute wins
         /\ (StyleVal(e, p) = "" /\ c # {} =>                                                 \* else a matching rule of maximal specificity
-               \E x \in c : v = LastDecl(rs[x].d, p, Len(rs[x].d)) /\ \A y \in c : SpecFor(rs[y], e) <= SpecFor(rs[x], e))
+               \E x \in c : v = LastDecl(rs[x].d, p, Len(rs[x].d)) /\ \A y \in c : SpecFor(rs[y], es, i) <= SpecFor(rs[x], es, i))
         /\ (StyleVal(e, p) = "" /\ c = {} /\ AttrVal(e, p) # "" => v = AttrVal(e, p))         \* else the presentation attribute
-        /\ (Declared(rs, e, p) = "" => v = IF ParentOf(es, i) = 0 THEN Initial(p) ELSE Computed(rs, es, ParentOf(es, i), p))   \* else inherited
-        /\ ((\A x, y \in c : x # y => SpecFor(rs[x], e) # SpecFor(rs[y], e)) => Declared(Rev(rs), e, p) = Declared(rs, e, p))  \* rule order matters only among equal specificity
+        /\ (Declared(rs, es, i, p) = "" => v = IF ParentOf(es, i) = 0 THEN Initial(p) ELSE Computed(rs, es, ParentOf(es, i), p))   \* else inherited
+        /\ ((\A x, y \in c : x # y => SpecFor(rs[x], es, i) # SpecFor(rs[y], es, i)) => Declared(Rev(rs), es, i, p) = Declared(rs, es, i, p))  \* rule order matters only among equal specificity
 Probe == {<<0, 0>>, <<1, 0>>, <<0, 1>>, <<3, -2>>}
 TransformLaws == Full => LET es == Doc.es IN
     \A i \in 2..Len(es) : LET own == OwnMat(es[i]) par == IF ParentOf(es, i) = 0 THEN MId ELSE CTM(es, ParentOf(es, i))
